@@ -518,7 +518,7 @@ func runC15History(r *Run, rng *Rng, hn int, ops []c15Op) {
 				case "any-upload":
 					hit = c.Kind == OpUpload
 				}
-				return Decision{Apply: applied, Err: errInjected}, hit
+				return Decision{Apply: applied, Err: rotatingInjectedErr()}, hit
 			}
 			cr.fmu.Unlock()
 		case "client":
